@@ -63,4 +63,18 @@ def run(tier, seed):
 
 
 def replay(path):
+    import json
+
+    with open(path) as f:
+        rec = json.load(f)
+    if "tree" in rec.get("case", {}):
+        from ..txwork import replay_peephole
+
+        what = replay_peephole(rec["case"])
+        print(what)
+        if what:
+            print(f"VIOLATION property=C07 replay={path}")
+            return 1
+        print("the recorded tree no longer violates the property")
+        return 0
     return replay_kx("C07", path, ORACLES)
